@@ -177,6 +177,7 @@ def install(extra_modules=()):
 
 _CACHES = []        # objects with cache_clear() (functools caches) reachable from eliot's modules
 _CONTAINERS = []    # module-level containers that were empty right after import (memo tables)
+_RANDOMS = []       # module-level random.Random instances (a private id generator): re-seeded per run
 
 
 def _scan_resettable():
@@ -185,6 +186,7 @@ def _scan_resettable():
     caches, and module-level dict/list/set globals that are empty after import."""
     del _CACHES[:]
     del _CONTAINERS[:]
+    del _RANDOMS[:]
     seen = set()
     for modname, mod in sorted(sys.modules.items()):
         if mod is None or not (modname == "eliot" or modname.startswith("eliot.")) or ".tests" in modname:
@@ -195,6 +197,9 @@ def _scan_resettable():
             if hasattr(val, "cache_clear") and callable(getattr(val, "cache_clear", None)):
                 seen.add(id(val))
                 _CACHES.append(val)
+            elif isinstance(val, random.Random):
+                seen.add(id(val))
+                _RANDOMS.append(val)
             elif isinstance(val, (dict, list, set)) and not val and not name.startswith("__") \
                     and getattr(mod, "__all__", None) is not val:
                 seen.add(id(val))
@@ -217,6 +222,12 @@ def require_seams(*names):
     found = _installed.get("_found", {})
     # a name may be given as alternatives "a|b": the function itself or the module it is reached through
     missing = [n for n in names if not any(x in found for x in n.split("|"))]
+    if missing == ["uuid4|uuid"]:
+        # a tree that makes its task ids some other way: a private random.Random is re-seeded per run
+        # (begin_run); anything else leaves the ids uncontrolled -- they are not compared anywhere, but a
+        # violation that depends on their order may then fail to replay (reported as such, never as a pass)
+        _installed["_uuid_uncontrolled"] = not _RANDOMS
+        return
     if missing:
         raise HarnessError("seam(s) not found in eliot: %s (found: %s)" % (
             missing, sorted(found)))
@@ -256,9 +267,23 @@ def begin_run(seed, clock=None):
         _action._ACTION_CONTEXT.set(None)
     except Exception:  # noqa
         pass
+    for i, r in enumerate(_RANDOMS):
+        try:
+            r.seed((seed ^ 0xE110) + i)
+        except Exception:  # noqa
+            pass
     _CLOCK = clock if clock is not None else SimClock()
     _UUID_RNG = random.Random(seed ^ 0x5EED)
     return _CLOCK
+
+
+def reseed_after_fork(salt=1):
+    """In a forked child of a run: what the real uuid4 (os.urandom) gives for free -- the child's ids are
+    not the parent's.  The seeded generator of the uuid seam would otherwise be copied with the process.
+    (Generators private to eliot are NOT touched: whether they survive a fork is eliot's business.)"""
+    global _UUID_RNG
+    if _UUID_RNG is not None:
+        _UUID_RNG = random.Random(_UUID_RNG.getrandbits(64) ^ (0xF0F0 * salt))
 
 
 def end_run():
